@@ -184,6 +184,21 @@ main_ob("main_decompress_tbz2", "h_main_files", {"C17": "quick"}, "-d", oper0="b
 main_ob("main_decompress_tz2", "h_main_files", {"C17": "quick"}, "-d", oper0=".tz2", extra=eo(".tar"), witnesses=WF)
 main_ob("main_decompress_bz2only", "h_main_files", {"C17": "quick"}, "-dk", oper0=".bz2", extra=eo(""), witnesses=["exit_failure", "exit_warning"])
 for sfx in ("bz2", "tbz", "tbz2", "tz2"):
-    main_ob("main_compress_skip_" + sfx, "h_main_files", {"C17": "quick"}, "-zf", oper0="q." + sfx, extra=["-DEXPECT_SKIP"], witnesses=["compressed_suffix_skipped", "exit_failure"])
+    main_ob("main_compress_skip_" + sfx, "h_main_files", {"C17": "quick"}, "-zf", oper0="q." + sfx, extra=["-DEXPECT_SKIP=1"], witnesses=["compressed_suffix_skipped", "exit_failure"])
 main_ob("main_test", "h_main_files", {"C17": "quick", "C07": "quick"}, "-t", oper0="a.bz2", witnesses=WN)
 main_ob("main_stdout", "h_main_files", {"C17": "quick", "C07": "quick"}, "-dc", oper0="a.bz2", witnesses=WN)
+
+# C18: two FILE operands in one invocation
+W2 = ["exit_success", "exit_failure", "exit_warning", "death_by_signal", "operand_converted", "both_operands_processed", "fatal_error_on_second_operand"]
+G = {"C18": "quick"}
+main_ob("main2_compress", "h_main_files", G, "-z", noper=2, extra=['-DEXPECT_OUT="a.bz2"', '-DEXPECT_OUT1="b.bz2"'], witnesses=W2 + ["operand_not_admitted"])
+main_ob("main2_decompress_keep", "h_main_files", G, "-dk", oper0="a.bz2", oper1="b.tz2", noper=2, extra=['-DEXPECT_OUT="a"', '-DEXPECT_OUT1="b.tar"'], witnesses=W2)
+main_ob("main2_compress_skip_first", "h_main_files", G, "-z", oper0="a.tbz", oper1="b", noper=2, extra=["-DEXPECT_SKIP=1", '-DEXPECT_OUT="?"', '-DEXPECT_OUT1="b.bz2"'],
+        witnesses=["exit_failure", "exit_warning", "death_by_signal", "operand_converted", "compressed_suffix_skipped"])
+main_ob("main2_compress_skip_second", "h_main_files", G, "-zf", oper0="a", oper1="b.bz2", noper=2, extra=["-DEXPECT_SKIP=2", '-DEXPECT_OUT="a.bz2"'],
+        witnesses=["exit_failure", "exit_warning", "death_by_signal", "operand_converted", "compressed_suffix_skipped"])
+main_ob("main2_stdout", "h_main_files", G, "-dc", oper0="a.bz2", oper1="b.bz2", noper=2, witnesses=WN + ["both_operands_processed"])
+# C21: filter mode
+FW = ["exit_success", "exit_failure", "death_by_signal"]
+for nm, args in (("filter_compress", "-z"), ("filter_decompress", "-d"), ("filter_copy", "-dcf")):
+    main_ob("main_" + nm, "h_main_filter", {"C21": "quick", "C07": "quick"}, args, extra=["-DFILTER_CHECKS"], witnesses=FW)
